@@ -152,8 +152,51 @@ fn pwhash_object_any_salt(i: &Input) -> Outcome {
     Ok(())
 }
 
+/// Object API on limits of any size: outlen, pw, salt (16), ops, mem.  When libsodium's crypto_pwhash (Argon2id) refuses
+/// the limits, PwHash::hash_with_salt / verify / derive_keypair must refuse them as well -- in particular limits above the
+/// 32-bit Argon2 parameters are not reduced modulo 2^32; otherwise the hash is libsodium's.
+fn pwhash_object_limits(i: &Input) -> Outcome {
+    use dryoc::pwhash::{Config, VecPwHash};
+    let (outlen, ops, mem) = (i.num("outlen") as usize, i.num("ops"), i.num("mem") as usize);
+    let (pw, salt) = (i.get("pw").to_vec(), i.arr::<16>("salt"));
+    // what a 32-bit truncation would hash with: keep a defective tree cheap (the generator only uses such limits)
+    let (t32, m32) = (ops & 0xffff_ffff, ((mem as u64 / 1024) & 0xffff_ffff) * 1024);
+    if t32 > 16 || m32 > (64 << 20) {
+        panic!("{} pwhash_object_limits: the low 32 bits of the costs must be small (t <= 16, m <= 64 MiB)", HARNESS);
+    }
+    let cfg = || Config::interactive().with_opslimit(ops).with_memlimit(mem).with_hash_length(outlen).with_salt_length(16);
+    let r = VecPwHash::hash_with_salt(&pw, salt.to_vec(), cfg());
+    match so::pwhash(outlen, &pw, &salt, ops, mem, so::ALG_ARGON2ID13) {
+        Some(w) => {
+            let h = must_ok(r, "PwHash::hash_with_salt")?;
+            let (hash, _, _) = h.clone().into_parts();
+            eq("PwHash::hash_with_salt hash", &w, &hash)?;
+            must_ok(h.verify(&pw), "PwHash::verify(correct password)")
+        }
+        None => {
+            let what = format!("(opslimit {}, memlimit {}: limits libsodium's crypto_pwhash refuses)", ops, mem);
+            must_err(r, &format!("PwHash::hash_with_salt {}", what))?;
+            // the hash of the truncated costs (if those are valid) stored under the out-of-range configuration
+            let stored = so::pwhash(outlen, &pw, &salt, t32, m32 as usize, so::ALG_ARGON2ID13).unwrap_or_else(|| vec![0u8; outlen]);
+            must_err(
+                VecPwHash::from_parts(stored, salt.to_vec(), cfg()).verify(&pw),
+                &format!("PwHash::verify of a hash stored with an out-of-range configuration {}", what),
+            )?;
+            let kp: Result<dryoc::keypair::StackKeyPair, _> = VecPwHash::derive_keypair(&pw, salt.to_vec(), cfg());
+            must_err(kp, &format!("PwHash::derive_keypair {}", what))
+        }
+    }
+}
+
 pub const C09: Registry = &[
     ("pwhash", pwhash),
+    // memory sizes whose segment length (m/4 blocks) is above 128 and not a multiple of 128: the data-independent
+    // addressing of Argon2i / Argon2id (pass 0, slices 0-1) uses a partly filled last address block
+    ("pwhash_partial_address_block", pwhash),
+    ("pwhash_object_partial_address_block", pwhash_object),
+    // limits above the maxima whose low 32 bits are valid costs
+    ("pwhash_out_of_range_low_bits_valid", pwhash),
+    ("pwhash_object_out_of_range", pwhash_object_limits),
     ("pwhash_out_of_range", pwhash),
     ("pwhash_object", pwhash_object),
     ("pwhash_object_salt_length", pwhash_object_any_salt),
@@ -207,6 +250,66 @@ pub fn c09(ctx: &mut Ctx) -> Search {
         let salt = ctx.rng.arr::<16>();
         ctx.run("pwhash", mk(2, outlen, &pw, &salt, 1, 8192))?;
         ctx.run("pwhash", mk(1, outlen, &pw, &salt, 3, 9 * 1024))?;
+    }
+    // segment length m/4 > 128 and not a multiple of 128 (129, 130, 250, 255, 257, 300, 449, 513 blocks), Argon2id with
+    // 1 and 2 passes, Argon2i with 3 (libsodium's minimum)
+    {
+        // (own generator state: the inputs of the other cases stay what they were)
+        let mut rng2 = ctx.rng.clone();
+        let mut sizes: Vec<u64> = vec![516, 520, 1000, 1023, 1028, 1200, 1799, 2052];
+        if t {
+            sizes.extend_from_slice(&[515, 519, 640, 1020, 1027, 1536 + 4, 3000, 4100, 5000, 10001]);
+        }
+        for (j, m) in sizes.iter().enumerate() {
+            let (pw, salt) = (rng2.bytes(j % 9), rng2.arr::<16>());
+            let outlen = [32u64, 16, 64, 33][j % 4];
+            ctx.run("pwhash_partial_address_block", mk(2, outlen, &pw, &salt, 1, m * 1024))?;
+            ctx.run("pwhash_partial_address_block", mk(2, outlen, &pw, &salt, 2, m * 1024 + 1023))?;
+            ctx.run("pwhash_partial_address_block", mk(1, outlen, &pw, &salt, 3, m * 1024))?;
+            if t {
+                ctx.run("pwhash_partial_address_block", mk(1, outlen, &pw, &salt, 4, m * 1024))?;
+                ctx.run("pwhash_partial_address_block", mk(2, outlen, &pw, &salt, 3, m * 1024))?;
+            }
+            if t || j % 3 == 0 {
+                ctx.run(
+                    "pwhash_object_partial_address_block",
+                    Input::new().u("outlen", outlen).b("pw", &pw).b("salt", &salt).u("ops", 1).u("mem", m * 1024),
+                )?;
+            }
+        }
+        // limits above the maxima whose low 32 bits are valid (and tiny) costs: refused by libsodium, not to be hashed with
+        // the truncated costs.  (Before the list below, which contains limits that truncate to 2^32 - 1 passes.)
+        let salt = rng2.arr::<16>();
+        let kib = |k: u64| k * 1024;
+        let over: Vec<(u64, u64)> = vec![
+            // (ops, mem)
+            ((1u64 << 32) + 1, 8192),
+            ((1u64 << 32) + 3, kib(16)),
+            ((5u64 << 32) + 2, 8192),
+            ((1u64 << 63) + 4, kib(9)),
+            (1, kib((1u64 << 32) + 8)),
+            (3, kib((1u64 << 32) + 37) + 5),
+            (2, kib((3u64 << 32) + 64)),
+            (3, (1u64 << 63) + kib(8)),
+            ((1u64 << 32) + 3, kib((1u64 << 32) + 8)),
+            // controls: the maxima themselves are not used (2^32 - 1 passes / 4 TiB); just above the minimum
+            (1, 8192),
+            (3, kib(8) + 1023),
+        ];
+        for (ops, mem) in over {
+            for alg in [2u64, 1] {
+                // (Argon2i below libsodium's 3-pass minimum is not part of this class: only out-of-range limits and the
+                // in-range controls libsodium accepts)
+                if alg == 1 && ops < 3 {
+                    continue;
+                }
+                ctx.run("pwhash_out_of_range_low_bits_valid", mk(alg, 32, b"pw", &salt, ops, mem))?;
+            }
+            ctx.run(
+                "pwhash_object_out_of_range",
+                Input::new().u("outlen", 32).b("pw", b"password").b("salt", &salt).u("ops", ops).u("mem", mem),
+            )?;
+        }
     }
     // out-of-range parameters: Err in both
     let salt = ctx.rng.arr::<16>();
